@@ -54,11 +54,12 @@ const (
 	KCondSignal
 	KCondBroadcast
 	KTimer
+	KGone
 )
 
 var kindNames = [...]string{"none", "start", "spawn", "send", "sent", "recv", "recvd", "close", "closed",
 	"lock", "unlock", "rlock", "runlock", "maprange", "select", "selected", "sync", "synced",
-	"call", "ret", "exit", "user", "condwait", "signal", "broadcast", "timer"}
+	"call", "ret", "exit", "user", "condwait", "signal", "broadcast", "timer", "gone"}
 
 func (k Kind) String() string {
 	if int(k) < len(kindNames) {
@@ -109,8 +110,8 @@ func Attach(s *Sim) { cur = s }
 // Active reports whether a simulator is attached.
 func Active() bool { return cur != nil }
 
-// Goid returns the runtime id of the calling goroutine.
-func Goid() uint64 {
+// RealGoid returns the runtime id of the calling goroutine, parsed from a stack dump.
+func RealGoid() uint64 {
 	var buf [64]byte
 	n := runtime.Stack(buf[:], false)
 	// "goroutine 123 [..."
@@ -185,6 +186,10 @@ func Start(tok uint64, site int32) {
 	}
 	park(KStart, site, 0, tok)
 }
+
+// Done is deferred right after Start in every instrumented goroutine: the
+// scheduler forgets the goroutine's key (the runtime reuses g structures).
+func Done() { post(KGone, 0, 0, 0) }
 
 // ---- channels ----
 
